@@ -55,7 +55,7 @@ theorem headerOk_distinct (f : Fields) (h : headerOk f = true) : distinctKeys f.
 def headerRead (g : Fields) : Fields :=
   { startFields g with
     definition := g.definition, accession := accessionLine g, version := g.version, dblink := g.dblink,
-    keywords := g.keywords, species := wrapSpace g.species, organism := g.organism, taxon := g.taxon,
+    keywords := g.keywords, species := g.species, organism := g.organism, taxon := g.taxon,
     references := g.references, comments := g.comments, extra := g.extra }
 
 /-- what the tail sections do -/
